@@ -369,6 +369,10 @@ fn datetime_add_boundary() -> BoxedStrategy<c05::AddCase> {
 }
 
 /// date-time rounding on the last/first representable day
+fn datetime_wrap_case() -> BoxedStrategy<c05::AddCase> {
+    (gen::datetime(), c04::wrap_dur(), prop::bool::ANY, prop::bool::weighted(0.3)).prop_map(|((day, ns), dur, reject, subtract)| c05::AddCase { day, ns, dur, reject, subtract }).boxed()
+}
+
 fn datetime_round_boundary() -> BoxedStrategy<c07::PubCase> {
     (c07::dt_round_case(), prop_oneof![Just(MAX_DAY), Just(MIN_DAY), Just(MIN_DAY + 1), Just(MAX_DAY - 1)], 0i128..3_600_000_000_000i128, prop::bool::ANY)
         .prop_map(|(mut c, day, back, string)| {
@@ -393,6 +397,9 @@ pub fn run(ctx: &mut Ctx) {
     ctx.run_enum(&LimitSub, n, &|i| cases[i as usize].clone(), true);
     ctx.run_prop(&c04::AddSub, &date_add_boundary, t.pick(300_000, 10_000_000));
     ctx.run_prop(&c05::AddSub, &datetime_add_boundary, t.pick(300_000, 10_000_000));
+    // never a wrapped value: one field scaled to within a few units of k * 2^31 / 2^32 / 2^63 / 2^64
+    ctx.run_prop(&c04::AddSub, &c04::wrap_case, t.pick(150_000, 5_000_000));
+    ctx.run_prop(&c05::AddSub, &datetime_wrap_case, t.pick(150_000, 5_000_000));
     ctx.run_prop(&c07::PubSub, &datetime_round_boundary, t.pick(100_000, 3_000_000));
     ctx.run_prop(&c06::Sub, &c06::case, t.pick(300_000, 10_000_000));
     ctx.run_prop(&c09::NewSub, &c09::new_case, t.pick(200_000, 6_000_000));
